@@ -330,6 +330,11 @@ func Reconcile(scnPath, outPath string, seed int64, limit int) error {
 	states := []string{"behind", "equal", "ahead", "diverged", "absent"}
 	var all []rScn
 	for i, sc := range scns {
+		if sc.Op != "" {
+			// a fixed witness: the operation and the branch placement are given
+			all = append(all, sc)
+			continue
+		}
 		sc.Op = "reconcile"
 		all = append(all, sc)
 		k := i + int(seed)
